@@ -16,6 +16,7 @@ closure (`*`, `+`, `?` outermost, possibly under `^`), so duplicates show; as a 
 Property oracle (independent of Lean): composition / union / converse / closure computed naively over
 the node set of the graph plus the given ends.
 """
+import re
 import warnings
 
 import core  # noqa: F401
@@ -47,12 +48,16 @@ RULE = ("random path expressions (depth <= 4 quick / <= 6 thorough; iri, ^, /, |
         "builds paths incrementally from shared sub-path objects with the operators / constructors and evaluates every object before "
         "and after it was used as an operand (constructors must not mutate operands), one in twelve has an EMPTY active graph (fresh, emptied after adds, empty default graph, empty registered named graph); the thorough tier first sweeps ALL 2^18 graphs over 3 nodes x 2 "
         "predicates (blocks of 128) against 24 fixed path shapes with the oracle (one shape per graph also against the "
-        "model).  non-trivial = the path has an operator and some binding with a given end has a non-empty answer; "
+        "model).  Round g, on every ordinary case: route sparql_n3 (the query text of the path is the object's own n3(), plain or with a "
+        "namespace manager; lines n3| = the text's tokens vs the Lean writer, readn3 = rdflib's parse tree and translatePath object of that "
+        "text vs the Lean reader and translate), route api (in / objects / subjects / subject_objects with unique False and True, [x, x] as "
+        "a list-valued end, Graph.value) and route first_false (MulPath.eval(..., first=False) when the top is a MulPath).  non-trivial = the path has an operator and some binding with a given end has a non-empty answer; "
         "distinct = distinct (triples, path, ends)")
 ASSUMPTIONS = ["a Graph / Dataset / aggregate view is the set of its triples (C01/C02/C15)",
                "VALUES-bound ends are only compared when the term occurs in the graph (for an absent term the algebra's "
                "answer differs from the answer for a constant in the pattern - C15-K1; the property speaks of given terms)"]
-TRUSTED = ["harness/c11.py generators, oracle and canonicalisation", "lean/RV/C11/Drive.lean line protocol and path parser"]
+TRUSTED = ["harness/c11.py generators, oracle and canonicalisation (incl. the lexer n3_words of n3() text and the sorting of negated-set members)",
+           "lean/RV/C11/Drive.lean line protocol and path parser"]
 
 E = "http://e/"
 NODE = {1: URIRef(E + "a"), 2: URIRef(E + "b"), 3: URIRef(E + "c"), 4: Literal(""), 5: Literal(0), 6: Literal(False),
@@ -68,7 +73,7 @@ GNAME = URIRef(E + "g1")
 ROUTES = ["triples", "so", "so_unique", "so_list", "value", "slice", "resource", "eval_direct", "interleave", "interleave_b",
           "ds_union", "ds_default", "ds_named", "agg", "in_agg", "in_ds", "sparql_const", "sparql_values",
           "sparql_tree", "sparql_init", "sparql_ds_union", "sparql_ds_default", "sparql_ds_graph", "sparql_ds_init",
-          "sparql_agg", "sparql_agg_values", "sparql_agg_init"]
+          "sparql_agg", "sparql_agg_values", "sparql_agg_init", "sparql_n3", "api", "first_false"]
 FULL, DEFAULT, NAMED, AGG = 0, 1, 2, 3
 ROUTE_GRAPH = {"so_unique": FULL, "so_list": FULL, "value": FULL, "slice": FULL, "resource": FULL, "eval_direct": FULL,
                "interleave": FULL, "interleave_b": DEFAULT,
@@ -76,7 +81,7 @@ ROUTE_GRAPH = {"so_unique": FULL, "so_list": FULL, "value": FULL, "slice": FULL,
                "in_agg": AGG, "in_ds": FULL,
                "sparql_const": FULL, "sparql_values": FULL, "sparql_tree": FULL, "sparql_init": FULL,
                "sparql_ds_union": FULL, "sparql_ds_default": DEFAULT, "sparql_ds_graph": NAMED, "sparql_ds_init": FULL,
-               "sparql_agg": AGG, "sparql_agg_values": AGG, "sparql_agg_init": AGG}
+               "sparql_agg": AGG, "sparql_agg_values": AGG, "sparql_agg_init": AGG, "sparql_n3": FULL, "api": FULL, "first_false": FULL}
 GNAME2 = URIRef(E + "g2")
 
 
@@ -272,6 +277,100 @@ def parser_tree_tokens(ast, style):
     q = parseQuery(PFX + "SELECT * WHERE { ?s %s ?o }" % sparql_text(ast, style))
     triples = q[1]["where"]["part"][0]["triples"][0]
     return syn_tokens(triples[1])
+
+
+# ------------------------------------------------------------------ round g: Path.n3() text, read back as SPARQL
+
+_NSM_G = Graph()
+_NSM_G.bind("e", E)
+NSM = _NSM_G.namespace_manager
+TOK_RE = re.compile(r"<[^>]*>|[A-Za-z_][\w-]*:[\w-]+|[\^/|()!?*+]")
+N3ID = {}
+for _i, _u in PRED.items():
+    N3ID[_u.n3()] = _i
+    N3ID[_u.n3(NSM)] = _i
+
+
+class Unreadable(Exception):
+    """the text Path.n3() wrote is not a SPARQL path (rdflib's own parser rejects the query)"""
+
+
+def n3_words(text):
+    """the harness's lexer: n3() text -> the driver's token words (iN ^ / | ( ) ! ? * +)"""
+    ws = TOK_RE.findall(text)
+    if "".join(ws) != text.replace(" ", ""):
+        return ["lexerr"]
+    return ["i%d" % N3ID[w] if w in N3ID else (w if len(w) == 1 else "lexerr") for w in ws]
+
+
+def canon_n3_line(line):
+    """the order of the members of a negated property set carries no meaning and the model keeps plain and inverse
+    members as two lists: sort the members inside every `! ( … )` group (plain ones first), on both sides"""
+    ws = line[3:].split()
+    out, i = [], 0
+    while i < len(ws):
+        if ws[i] == "!" and i + 1 < len(ws) and ws[i + 1] == "(" and ")" in ws[i + 2:]:
+            j = ws.index(")", i + 2)
+            ms = " ".join(ws[i + 2:j]).split(" | ") if j > i + 2 else []
+            ms.sort(key=lambda m: (m.startswith("^"), int(m.split("i")[-1]) if m.split("i")[-1].isdigit() else -1, m))
+            out += ["!", "("] + " | ".join(ms).split() + [")"]
+            i = j + 1
+        else:
+            out.append(ws[i])
+            i += 1
+    return "n3|" + " ".join(out)
+
+
+def n3_level(P):
+    """what the n3() text of P is in SPARQL's grammar, given that n3() only parenthesises sequences / alternatives with
+    two or more members: 0 PathPrimary, 1 PathElt (primary + modifier), 2 '^' PathElt, None = not a path
+    (a modifier on something that is not a primary, '^' on something that is not a PathElt, an empty alternative)"""
+    if isinstance(P, (URIRef, NegatedPath)):
+        return 0
+    if isinstance(P, (SequencePath, AlternativePath)):
+        if not P.args:
+            return None
+        if len(P.args) == 1:
+            return n3_level(P.args[0])
+        return 0 if all(n3_level(a) is not None for a in P.args) else None
+    if isinstance(P, MulPath):
+        return 1 if n3_level(P.path) == 0 else None
+    if isinstance(P, InvPath):
+        return 2 if n3_level(P.arg) in (0, 1) else None
+    return None
+
+
+def obj_ast(P):
+    """an rdflib path object as the AST of this module (members of a negated set: plain ones, inverse ones, in order)"""
+    if isinstance(P, URIRef):
+        return ["i", REV[P]]
+    if isinstance(P, InvPath):
+        return ["v", obj_ast(P.arg)]
+    if isinstance(P, SequencePath):
+        return ["s", [obj_ast(a) for a in P.args]]
+    if isinstance(P, AlternativePath):
+        return ["a", [obj_ast(a) for a in P.args]]
+    if isinstance(P, MulPath):
+        return ["m", P.mod, obj_ast(P.path)]
+    if isinstance(P, NegatedPath):
+        return ["n", [REV[a] for a in P.args if isinstance(a, URIRef)], [REV[a.arg] for a in P.args if isinstance(a, InvPath)]]
+    raise ValueError("not a path: %r" % (P,))
+
+
+def n3_tree_line(text):
+    """rdflib's parser + translatePath on the n3() text: the parser's tree ` => ` the path object built from it"""
+    from rdflib.plugins.sparql.algebra import translatePath, traverse
+    from rdflib.plugins.sparql.parser import parseQuery
+    try:
+        q = parseQuery("SELECT * WHERE { ?s %s ?o }" % text)
+    except Exception as e:
+        if "Parse" in type(e).__name__:
+            return "unreadable"
+        raise
+    tree = q[1]["where"]["part"][0]["triples"][0][1]
+    toks = syn_tokens(tree)
+    obj = traverse(tree, visitPost=translatePath)
+    return " ".join(toks) + " => " + " ".join(path_tokens(obj_ast(obj)))
 
 
 # ------------------------------------------------------------------ the property's own oracle
@@ -576,7 +675,7 @@ def gen_empty_view(rng):
         o = s
     return {"triples": T, "ghost": ghost, "path": path, "ends": [[s, None], [None, o], [s, o], [None, None]],
             "routes": ["triples", "so", "agg", "ds_default", "ds_named", "sparql_const", "sparql_tree", "sparql_ds_union",
-                       "sparql_ds_default", "sparql_ds_graph"], "style": rng.choice([0, 1, 2])}
+                       "sparql_ds_default", "sparql_ds_graph", "sparql_n3"], "style": rng.choice([0, 1, 2])}
 
 
 # ---- incremental construction from shared sub-path objects ------------------------------------------------
@@ -761,7 +860,7 @@ def gen_case(rng, tier, i):
     if rng.random() < 0.15:
         o = s
     ends = [[None, None], [s, None], [None, o], [s, o]]
-    routes = ["triples", "so", "agg", "in_agg"]
+    routes = ["triples", "so", "agg", "in_agg", "sparql_n3", "api", "first_false"]
     routes += rng.sample(["so_unique", "so_list", "value", "slice", "resource", "eval_direct", "interleave"],
                          2 if tier == "quick" else 4)
     if "interleave" in routes:
@@ -808,12 +907,14 @@ def _graphs(case):
 
 def _applicable(route, case, s, o, parts):
     if route.startswith("sparql"):
-        if has_empty_alt(case["path"]):
-            return False
+        if has_empty_alt(case["path"]) and route != "sparql_n3":
+            return False        # no SPARQL spelling (sparql_n3 takes whatever n3() writes, readable or not)
         if any(x in NO_SPARQL_TERM for x in (s, o) if x is not None):
             return False
     if route == "sparql_tree" and "sparql_const" not in case["routes"]:
         return False
+    if route == "first_false" and case["path"][0] != "m":
+        return False        # MulPath.eval(graph, s, o, first=False): only a MulPath has the flag
     one_end = (s is None) != (o is None)
     if route in ("value", "resource", "so_list") and not one_end:
         return False        # Graph.value / Resource.objects|subjects / objects([s], …): exactly one end given
@@ -893,6 +994,8 @@ def _run_route(route, env, path_ast, s, o):
         if O is None:
             return back((S, ident(b)) for b in Resource(g, S).objects(P))
         return back((ident(a), O) for a in Resource(g, O).subjects(P))
+    if route == "first_false":
+        return back(P.eval(env["g"], S, O, first=False))
     if route == "eval_direct":
         g = env["g"]
         if isinstance(P, URIRef) or env["style"] == 1:
@@ -934,8 +1037,13 @@ def _run_route(route, env, path_ast, s, o):
         return [(s, o)] if (S, P, O) in env["agg"] else []
     if route == "in_ds":
         return [(s, o)] if (S, P, O) in env["ds_u"] else []
-    txt = sparql_text(path_ast, env["style"])
+    txt = None if has_empty_alt(path_ast) else sparql_text(path_ast, env["style"])
     g = env["g"]
+    if route == "sparql_n3":
+        # the query text of the path is what the object's own n3() writes (with the prefixes of a namespace manager in
+        # style 2); the query is then parsed, translated and evaluated by rdflib as any other
+        txt = P.n3(NSM) if env["style"] == 2 else P.n3()
+        route = "sparql_n3_const"
     if route == "sparql_agg":
         route, g = "sparql_const", env["agg"]
     elif route == "sparql_agg_values":
@@ -945,14 +1053,22 @@ def _run_route(route, env, path_ast, s, o):
         target = {"sparql_init": g, "sparql_agg_init": env.get("agg"), "sparql_ds_init": env.get("ds_u")}[route]
         init = {v: x for v, x in (("s", S), ("o", O)) if x is not None}
         return back((r[0], r[1]) for r in target.query(PFX + "SELECT ?s ?o WHERE { ?s %s ?o }" % txt, initBindings=init))
-    if route in ("sparql_const", "sparql_ds_union", "sparql_ds_default", "sparql_ds_graph"):
+    if route in ("sparql_const", "sparql_n3_const", "sparql_ds_union", "sparql_ds_default", "sparql_ds_graph"):
         pat = "%s %s %s" % ("?s" if s is None else _n3(s), txt, "?o" if o is None else _n3(o))
         if route == "sparql_ds_graph":
             # the named graph is registered in the dataset even when it holds no triple
             pat = "GRAPH <%s> { %s }" % (GNAME, pat)
         q = "SELECT %s WHERE { %s }" % (" ".join(v for v, x in (("?s", s), ("?o", o)) if x is None) or "*", pat)
-        target = {"sparql_const": g, "sparql_ds_union": env.get("ds_u"), "sparql_ds_default": env.get("ds_d"),
+        target = {"sparql_const": g, "sparql_n3_const": g, "sparql_ds_union": env.get("ds_u"), "sparql_ds_default": env.get("ds_d"),
                   "sparql_ds_graph": env.get("ds_d") if env["style"] else env.get("ds_u")}[route]  # g may be the aggregate
+        if route == "sparql_n3_const":
+            from rdflib.plugins.sparql.parser import parseQuery
+            try:
+                parseQuery(PFX + "PREFIX rdf: <%s> " % RDF + q)
+            except Exception as e:
+                if "Parse" in type(e).__name__:
+                    raise Unreadable(txt)
+                raise
         res = target.query(PFX + q)
         if s is not None and o is not None:
             # no variable left: one empty solution per match (Result.__iter__ skips empty solutions, so count them)
@@ -1019,6 +1135,43 @@ def _build_env(case, parts):
             members.append(g2)
         env["agg"] = ReadOnlyGraphAggregate(members)
     return env
+
+
+def _api_line(env, ast, s, o, T, viol):
+    """round g: the Graph API entry points with the path as predicate, one canonical line (see Drive.lean `api`)"""
+    g, P = env["g"], env["path"]
+    S, O = (None if s is None else TERM[s]), (None if o is None else TERM[o])
+    terms = lambda xs: " ".join(str(i) for i in sorted(REV[x] for x in xs))  # noqa: E731
+    pairs = lambda ps: " ".join("%d,%d" % p for p in sorted((REV[a], REV[b]) for a, b in ps))  # noqa: E731
+    want = expected(ast, T, s, o)
+    if S is not None and O is not None:
+        got = (S, P, O) in g
+        if got != bool(want):
+            tag = relation_tag(ast, T, s, o, {(s, o)} if got else set())
+            viol.append(f"{tag}: route api `in` path {ast} ends ({s},{o}) on {T}: {got}, expected {bool(want)}")
+        return "in|" + ("T" if got else "F")
+    if S is None and O is None:
+        plain, uq = list(g.subject_objects(P)), list(g.subject_objects(P, unique=True))
+        if len(uq) != len(set(uq)):
+            viol.append(f"uniq: subject_objects(path, unique=True) yields duplicates, path {ast} on {T}")
+        if set(uq) != set(plain):
+            viol.append(f"uniq: subject_objects(path, unique=True) differs from unique=False as a set, path {ast} on {T}")
+        return "so|" + pairs(set(plain)) + "|uniq|" + pairs(uq)
+    if O is None:
+        plain, uq = list(g.objects(S, P)), list(g.objects(S, P, unique=True))
+        twice, val, name = list(g.objects([S, S], P, unique=True)), g.value(S, P), "objs"
+    else:
+        plain, uq = list(g.subjects(P, O)), list(g.subjects(P, O, unique=True))
+        twice, val, name = list(g.subjects(P, [O, O], unique=True)), g.value(None, P, O), "subjs"
+    if len(uq) != len(set(uq)):
+        viol.append(f"uniq: {name}(…, unique=True) yields duplicates, path {ast} ends ({s},{o}) on {T}")
+    if set(uq) != set(plain):
+        viol.append(f"uniq: {name}(…, unique=True) differs from unique=False as a set, path {ast} ends ({s},{o}) on {T}")
+    if sorted(REV[x] for x in twice) != sorted(2 * [REV[x] for x in uq]):
+        viol.append(f"uniq: {name} over the list [x, x] is not twice the answer for x, path {ast} ends ({s},{o}) on {T}")
+    if (val is None) != (not plain) or (val is not None and val not in plain):
+        viol.append(f"value: Graph.value gives {val!r}, answers {plain!r}, path {ast} ends ({s},{o}) on {T}")
+    return "%s|%s|uniq|%s|twice|%s|value|%d" % (name, terms(set(plain)), terms(uq), terms(twice), int(val is not None))
 
 
 def _line(pairs, closure):
@@ -1138,6 +1291,11 @@ def run_impl(case):
             continue
         T = parts[ROUTE_GRAPH[route]]
         want = expected(ast, T, s, o)
+        ast_r = ast
+        if route == "first_false" and not (s is None and o is None):
+            # first=False skips the zero-length step on the given end(s): one or more steps (`?`: exactly one)
+            ast_r = ["m", "+", ast[2]] if ast[1] in "*+" else ast[2]
+            want = expected(ast_r, T, s, o)
         stats["route_" + route] = stats.get("route_" + route, 0) + 1
         stats["bind_%s%s" % ("s" if s is not None else "-", "o" if o is not None else "-")] = \
             stats.get("bind_%s%s" % ("s" if s is not None else "-", "o" if o is not None else "-"), 0) + 1
@@ -1148,9 +1306,20 @@ def run_impl(case):
                 if x not in used:
                     stats["end_absent"] = stats.get("end_absent", 0) + 1
         try:
+            if route == "api":
+                obs.append(_api_line(env, ast, s, o, T, viol))
+                continue
             got = _run_route(route, env, ast, s, o)
         except core.CaseTimeout:
             raise
+        except Unreadable as e:
+            # n3() wrote something that is not a SPARQL path.  An observation (the model's reader must reject the
+            # model's text too); a violation only when the path has a spelling n3() could have written
+            obs.append("unreadable")
+            stats["n3_unreadable"] = stats.get("n3_unreadable", 0) + 1
+            if n3_level(env["path"]) is not None:
+                viol.append(f"n3parse: route sparql_n3 path {ast}: n3() wrote {str(e)!r}, which rdflib's parser rejects")
+            continue
         except Exception as e:
             obs.append("ERR:" + _err(e))
             if route == "sparql_const":
@@ -1163,7 +1332,7 @@ def run_impl(case):
             const_line[(s, o)] = obs[-1]
         gs = set(got)
         if gs != want:
-            viol.append(f"{relation_tag(ast, T, s, o, gs)}: route {route} path {ast} ends ({s},{o}) on {T}: missing "
+            viol.append(f"{relation_tag(ast_r, T, s, o, gs)}: route {route} path {ast} ends ({s},{o}) on {T}: missing "
                         f"{sorted(want - gs)} extra {sorted(gs - want)}")
         if closure and len(got) != len(gs):
             viol.append(f"dup: route {route} closure path {ast} ends ({s},{o}) on {T} yields duplicates: {sorted(got)}")
@@ -1171,6 +1340,25 @@ def run_impl(case):
             stats["answers_nonempty"] = stats.get("answers_nonempty", 0) + 1
             if (s is not None or o is not None) and ast[0] != "i":
                 nontrivial = True
+    if "sparql_n3" in case["routes"]:
+        # the text itself (without and with a namespace manager), and what rdflib's parser + translatePath make of it
+        P = env["path"]
+        lvl = n3_level(P)
+        stats["n3_level_" + {None: "none", 0: "primary", 1: "elt", 2: "inverse"}[lvl]] = 1
+        for text in (P.n3(), P.n3(NSM)):
+            obs.append(canon_n3_line("n3|" + " ".join(n3_words(text))))
+        try:
+            line = n3_tree_line(P.n3())
+        except core.CaseTimeout:
+            raise
+        except Exception as e:
+            line = "ERR:" + _err(e)
+            viol.append(f"raise: parsing / translating the n3() text {P.n3()!r} of {ast} raised {type(e).__name__}: {str(e)[:100]}")
+        obs.append(line)
+        if line == "unreadable":
+            stats["n3_text_unreadable"] = 1
+            if lvl is not None:
+                viol.append(f"n3parse: path {ast}: n3() wrote {P.n3()!r}, which rdflib's parser rejects")
     return {"obs": obs, "viol": viol, "nontrivial": nontrivial,
             "key": repr((parts[FULL], ast, case["ends"])), "stats": stats}
 
@@ -1217,6 +1405,24 @@ def model_lines(case):
         lines.append("graph " + " ".join("%d,%d,%d" % t for t in parts[FULL]))
         for s, o in case["ends"]:
             lines.append(f"evalsyn {_w(s)} {_w(o)} {stoks}")
+    if "sparql_n3" in case["routes"]:
+        lines.append("graph " + " ".join("%d,%d,%d" % t for t in parts[FULL]))
+        for s, o in case["ends"]:
+            lines.append(f"evaln3 {_w(s)} {_w(o)} {toks}")
+        lines.append("n3 " + toks)
+        try:        # the model's reader is given the text rdflib wrote (the writer is compared separately)
+            words = " ".join(n3_words(to_rdflib(case["path"], case.get("style", 0)).n3()))
+        except Exception as e:
+            words = "unwritten " + type(e).__name__
+        lines.append("readn3 " + words)
+    if "api" in case["routes"]:
+        lines.append("graph " + " ".join("%d,%d,%d" % t for t in parts[FULL]))
+        for s, o in case["ends"]:
+            lines.append(f"api {_w(s)} {_w(o)} {toks}")
+    if "first_false" in case["routes"] and case["path"][0] == "m":
+        lines.append("graph " + " ".join("%d,%d,%d" % t for t in parts[FULL]))
+        for s, o in case["ends"]:
+            lines.append(f"evalf {_w(s)} {_w(o)} {toks}")
     return lines
 
 
@@ -1250,14 +1456,28 @@ def select_model_obs(case, out):
     pos = {}
     for bi, (s, o) in enumerate(case["ends"]):
         pos.setdefault((s, o), bi)
+    n3_base = 4 * (n + 1) + ((n + 1) if "sparql_tree" in case["routes"] and not has_empty_alt(case["path"]) else 0)
+    api_base = n3_base + ((n + 3) if "sparql_n3" in case["routes"] else 0)
+    ff_base = api_base + ((n + 1) if "api" in case["routes"] else 0)
     for s, o, route in plan:
+        if route == "api":
+            res.append(out[api_base + 1 + pos[(s, o)]])
+            continue
+        if route == "first_false":
+            res.append(out[ff_base + 1 + pos[(s, o)]])
+            continue
         if route == "sparql_tree":
             line = out[4 * (n + 1) + 1 + pos[(s, o)]]
+        elif route == "sparql_n3":
+            line = out[n3_base + 1 + pos[(s, o)]]
         else:
             line = idx[(ROUTE_GRAPH[route], pos[(s, o)])]
         if not closure and "|" in line:
             line = _dedup_line(line)
         res.append(line)
+    if "sparql_n3" in case["routes"]:
+        res += [canon_n3_line(out[n3_base + n + 1]) if out[n3_base + n + 1].startswith("n3|") else out[n3_base + n + 1]] * 2
+        res.append(out[n3_base + n + 2])
     return res
 
 
